@@ -120,8 +120,16 @@ class Multiline:
     -------
     self
     """
+    self._check_single_definition_tags(gfa_line)
     for of in gfa_line.tagnames:
-      # refuse an inconsistent single-definition tag before anything is merged
+      self.add(of, gfa_line.get(of), gfa_line.get_datatype(of))
+    return self
+
+  def _check_single_definition_tags(self, gfa_line):
+    """
+    Refuse an inconsistent single-definition tag before anything is merged
+    """
+    for of in gfa_line.tagnames:
       if of in self.SINGLE_DEFINITION_TAGS and self.get(of) is not None and \
           not isinstance(self.get(of), gfapy.FieldArray) and \
           self.field_to_s(of) != gfapy.Field._to_gfa_field(gfa_line.get(of),
@@ -130,9 +138,6 @@ class Multiline:
           "Inconsistent values for header tag {} found\n".format(of)+
           "Previous definition: {}\n".format(self.get(of))+
           "Current definition: {}".format(gfa_line.get(of)))
-    for of in gfa_line.tagnames:
-      self.add(of, gfa_line.get(of), gfa_line.get_datatype(of))
-    return self
 
   def _tags(self):
     """
